@@ -178,6 +178,10 @@ fn breadth(ctx: &Ctx, devs: Vec<Act>, thorough: bool) -> Vec<LifeCfg> {
             v.push(cfg(ctx, h, vec![hw(2, w), hw(2, w)], 0, None, b, devs.clone()));
         }
     }
+    // every deviation (messages, entry points, aux modes) also on a 1-level and a 3-level key
+    v.push(cfg(ctx, Hid::S32, vec![hw(5, 4)], 0, None, 1, devs.clone()));
+    v.push(cfg(ctx, Hid::S16, vec![hw(2, 4), hw(2, 4), hw(2, 4)], 0, None, 1, devs.clone()));
+    v.push(cfg(ctx, Hid::K16, vec![hw(5, 2)], 0, Some(4), 1, devs.clone()));
     // [2,2,2] whole lifetime
     v.push(cfg(ctx, Hid::S32, vec![hw(2, 2), hw(2, 4), hw(2, 8)], 0, None, 0, vec![]));
     v.push(cfg(ctx, Hid::S24, vec![hw(2, 8), hw(2, 1), hw(2, 4)], 0, None, 0, vec![]));
@@ -364,11 +368,65 @@ pub fn run_c04(ctx: &Ctx) -> (&'static str, Map<String, Value>) {
             }
         }
     }
+    cfgs.extend(length_boundary_cfgs(ctx, vec![sign_act(0, Entry::Key, Cb::Accept, AuxMode::None), sign_act(0, Entry::Bytes, Cb::Reject, AuxMode::None)]));
     let (agg, labels) = run_lattice(ctx, cfgs);
     ctx.assume("the callback snapshots are taken inside the call; a signature value cannot exist for the caller before the call returns");
     let mut cov = coverage(ctx, &agg, &labels, RULE, true);
     cov.insert("fault_alphabet".into(), json!(devs.iter().map(|d| format!("{:?}", d)).collect::<Vec<_>>()));
     ("model_checking", cov)
+}
+
+/// parameter lists whose signature length lies around the 65535-byte limit of the signature
+/// container: every multiset of Winternitz parameters over 8 (and 7) levels with a 32-byte hash,
+/// heights 2 / 5, in ascending and descending order, within +-2500 bytes of the limit
+pub fn length_boundary_cfgs(ctx: &Ctx, devs: Vec<Act>) -> Vec<LifeCfg> {
+    fn seqs(levels: usize, from: usize, cur: &mut Vec<usize>, out: &mut Vec<Vec<usize>>) {
+        if cur.len() == levels {
+            out.push(cur.clone());
+            return;
+        }
+        for k in from..4 {
+            cur.push(k);
+            seqs(levels, k, cur, out);
+            cur.pop();
+        }
+    }
+    let m = crate::refmodel::Model::new(Hid::S32);
+    let mut out = vec![];
+    let ws = [1u32, 2, 4, 8];
+    for levels in [7usize, 8] {
+        let mut all = vec![];
+        seqs(levels, 0, &mut vec![], &mut all);
+        for idx in all {
+            for hmix in 0..3 {
+                let mut params: Vec<Param> = idx
+                    .iter()
+                    .enumerate()
+                    .map(|(i, k)| {
+                        let h = match hmix {
+                            0 => 2,
+                            1 => 5,
+                            _ => {
+                                if i % 2 == 0 {
+                                    5
+                                } else {
+                                    2
+                                }
+                            }
+                        };
+                        hw(h, ws[*k])
+                    })
+                    .collect();
+                let len = m.hss_sig_len(&params) as i64;
+                if (len - 65535).abs() <= 2500 {
+                    out.push(cfg(ctx, Hid::S32, params.clone(), 0, Some(2), 1, devs.clone()));
+                    params.reverse();
+                    out.push(cfg(ctx, Hid::S32, params, 0, Some(2), 0, vec![]));
+                }
+            }
+        }
+    }
+    out
 }
 
 pub fn c05_life_cfgs(ctx: &Ctx) -> Vec<LifeCfg> {
@@ -396,6 +454,7 @@ pub fn c05_life_cfgs(ctx: &Ctx) -> Vec<LifeCfg> {
     for (s, ms) in windows(&[hw(5, 4), hw(5, 4)], 2) {
         cfgs.push(cfg(ctx, Hid::S24, vec![hw(5, 4), hw(5, 4)], s, ms, 0, vec![]));
     }
+    cfgs.extend(length_boundary_cfgs(ctx, vec![sign_act(0, Entry::Key, Cb::Accept, AuxMode::None)]));
     // the longest signatures: 8 levels of W1 on a 32-byte hash (69 868 bytes), and 7 levels (61 128 bytes)
     for l in [7usize, 8] {
         let params: Vec<Param> = (0..l).map(|_| hw(2, 1)).collect();
